@@ -133,7 +133,9 @@ func (m *mintBurnMonitor) AfterBegin(r *kernel.Run, resp abci.ResponseBeginBlock
 	}
 }
 
-func (m *mintBurnMonitor) BeforeTx(r *kernel.Run, tx *kernel.Tx, msgs []sdk.Msg) { m.preBal = r.Chain.AllBalances() }
+func (m *mintBurnMonitor) BeforeTx(r *kernel.Run, tx *kernel.Tx, msgs []sdk.Msg) {
+	m.preBal = r.Chain.AllBalances()
+}
 
 func addrFields(msg sdk.Msg) []string {
 	switch t := msg.(type) {
